@@ -18,9 +18,9 @@ def c03(chk, opts):
         ev = json.loads(e)
         n = len(ev["players"])
         stats["players"][n] = stats["players"].get(n, 0) + 1
-        if ev["none"] != 0:
-            stats["none"] += 1
-        else:
+        if any(c in ev["board"] for pl in ev["players"] for c in pl):
+            stats["none"] += 1          # input with a hole card on the board (counted on the input, not on the outcome)
+        if ev["none"] == 0:
             if ev["wl"] == 2: stats["ties2"] += 1
             if ev["wl"] >= 3: stats["ties3plus"] += 1
             if ev["wl"] == n and n > 1: stats["all_tie"] += 1
